@@ -62,6 +62,7 @@ def shard(ctx):
         except Exception as ex:
             ctx.violation('module_construction_raises:' + type(ex).__name__, f'building module {name} raised', {'module': name, 'error': repr(ex)[:400]})
             continue
+        plain_ok = None
         for opt in (False, True):
             ctx.count('cases')
             if f and name.startswith('taut'):
@@ -73,10 +74,18 @@ def shard(ctx):
             except AssertionError as ex:
                 ctx.count('toolkit_refused')
                 ctx.note('toolkit_refused_example', {'module': b.desc[:8], 'optimize': opt, 'error': repr(ex)[:300]})
+                if opt and plain_ok:
+                    # the module serialises without optimisation but the optimising pipeline refuses it
+                    ctx.violation('only_the_optimised_serialisation_is_refused', 'ProofExp.serialize succeeds with optimize=False and raises with optimize=True for the same module',
+                                  {'module': b.desc, 'tags': sorted(b.tags), 'error': repr(ex)[:400]})
+                if not opt:
+                    plain_ok = False
                 continue
             except Exception as ex:
                 ctx.violation('serialize_raises:' + type(ex).__name__, f'ProofExp.serialize raised {type(ex).__name__}', {'module': b.desc, 'optimize': opt, 'error': repr(ex)[:400]})
                 continue
+            if not opt:
+                plain_ok = True
             ctx.case(g + b'|' + c + b'|' + p, nontrivial=('claims>=2' in b.tags or b'\x1a' in p))
             if 'claims>=2' in b.tags:
                 ctx.count('modules_with_2_claims')
